@@ -28,6 +28,48 @@ fn suffix(seed: u64) -> Vec<Step> {
 }
 
 /// Persist after `k` steps of `h`, restore, and continue both devices in lock-step.
+/// name of the first `name: value` pair that differs between two Debug renderings
+fn first_diff_field(a: &str, b: &str) -> String {
+    let i = a.bytes().zip(b.bytes()).position(|(x, y)| x != y).unwrap_or(a.len().min(b.len()));
+    let head = &a[..i];
+    let colon = head.rfind(": ").unwrap_or(0);
+    let start = head[..colon].rfind(|c: char| !(c.is_alphanumeric() || c == '_')).map(|p| p + 1).unwrap_or(0);
+    head[start..colon].to_string()
+}
+
+/// nb front-end: the application can read the session between any two events of a transaction (the
+/// power can be cut there): every such snapshot restores to an equal session.
+pub fn check_midflight(h: &History) -> Result<u32, Failure> {
+    if h.cfg.front != FrontKind::Nb {
+        return Ok(0);
+    }
+    let mut a = World::new(h).map_err(|e| Failure::new("harness", h.json(), e))?;
+    a.env.0.borrow_mut().capture_sessions = true;
+    for (i, s) in h.steps.iter().enumerate() {
+        let _ = a.step(i, s);
+        if a.dead {
+            break;
+        }
+    }
+    let caps = std::mem::take(&mut a.env.0.borrow_mut().captured_sessions);
+    let mut n = 0;
+    for (k, (text, orig)) in caps.iter().enumerate() {
+        let case = || json!({"kind": "midflight", "history": h.json(), "event": k});
+        let restored: Session = match catch(|| serde_json::from_str::<Session>(text)) {
+            Ok(Ok(s)) => s,
+            Ok(Err(e)) => return Err(Failure::new("restores", case(), format!("a session the device itself serialised mid-transaction does not deserialise: {e}\n{text}")).with_fp("own-document-rejected")),
+            Err(pm) => return Err(Failure::panic(case(), &pm)),
+        };
+        let got = crate::drive::fronts::norm_session_debug(&format!("{restored:?}"));
+        if got != *orig {
+            let field = first_diff_field(orig, &got);
+            return Err(Failure::new("lossless", case(), format!("session read at event {k} of the history (mid-transaction) restores differently: original {orig} / restored {got}")).with_fp(format!("lossless/field/{field}")));
+        }
+        n += 1;
+    }
+    Ok(n)
+}
+
 pub fn check_at(h: &History, k: usize) -> Result<Option<bool>, Failure> {
     let case = || json!({"kind": "persist", "history": h.json(), "persist_after_steps": k});
     let mut a = World::new(h).map_err(|e| Failure::new("harness", h.json(), e))?;
@@ -45,6 +87,15 @@ pub fn check_at(h: &History, k: usize) -> Result<Option<bool>, Failure> {
         Ok(Err(e)) => return Err(Failure::new("restores", case(), format!("a session the device itself serialised does not deserialise: {e}\n{text}")).with_fp("own-document-rejected")),
         Err(pm) => return Err(Failure::panic(case(), &pm)),
     };
+    // every field, also those the serialised form may leave out: the Debug rendering of the restored
+    // session equals that of the original (transient bookkeeping masked)
+    if let Some(orig) = a.front.session_debug() {
+        let got = crate::drive::fronts::norm_session_debug(&format!("{restored:?}"));
+        if got != orig {
+            let field = first_diff_field(&orig, &got);
+            return Err(Failure::new("lossless", case(), format!("restored session differs from the original in a field: original {orig} / restored {got}")).with_fp(format!("lossless/field/{field}")));
+        }
+    }
     let doc2 = serde_json::to_value(&restored).unwrap();
     if doc2 != doc {
         let field = doc.as_object().and_then(|o| o.keys().find(|k| doc[k.as_str()] != doc2[k.as_str()]).cloned()).unwrap_or_default();
@@ -241,6 +292,7 @@ pub fn replay(case: &Value, _kf: &KnownFindings) -> Result<(), Failure> {
         return fuzz_document(&unhex(case["data"].as_str().unwrap_or("")));
     }
     match case["kind"].as_str() {
+        Some("midflight") => check_midflight(&History::from_json(&case["history"])).map(|_| ()),
         Some("persist") => check_at(&History::from_json(&case["history"]), case["persist_after_steps"].as_u64().unwrap_or(0) as usize).map(|_| ()),
         Some("document") => check_document(&DevCfg::from_json(&case["config"]), case["text"].as_str().unwrap_or("")).map(|_| ()),
         _ => Err(Failure::new("bad-replay", case.clone(), "unknown case kind")),
@@ -264,7 +316,7 @@ pub fn history_strategy() -> impl Strategy<Value = History> {
 }
 
 pub fn run(ctx: &mut Ctx) {
-    ctx.rule = "(A) crash-point enumeration: proptest histories (MAC-bearing downlinks so that pending answers of every length incl. full 15 bytes occur, owed ACKs, ADR counts, counters at 16/32-bit boundaries, OTAA and ABP) and for EVERY prefix length k: serialise the session with serde_json, deserialise, re-serialise and compare; build a second device from the restored session (same region and public configuration calls) and run both on a fixed-shape suffix of 4 transactions (time-outs, replays of frames accepted before the crash point, fresh authentic downlinks, a port-0 uplink): uplink bytes, responses, remembered counters and session documents must stay equal. (B) structurally mutated documents (every field dropped / renamed / null / wrong type / out-of-range number, array length +-1, pending_len 0..255, counters at type limits, duplicate field, truncation at every byte, random byte edits): Err, or a session on which a 7-transaction history stays panic- and hang-free. Non-trivial: snapshot with fcnt_down = Some or pending answers or an owed ACK; mutated documents that are accepted; distinct by hash".into();
+    ctx.rule = "(A0) every field: the Debug rendering (all fields, persisted or not) of the deserialised session equals that of the original, at every step boundary and, on the nb front-end, at every event inside every transaction (the application can read the session there); (A) crash-point enumeration: proptest histories (MAC-bearing downlinks so that pending answers of every length incl. full 15 bytes occur, owed ACKs, ADR counts, counters at 16/32-bit boundaries, OTAA and ABP) and for EVERY prefix length k: serialise the session with serde_json, deserialise, re-serialise and compare; build a second device from the restored session (same region and public configuration calls) and run both on a fixed-shape suffix of 4 transactions (time-outs, replays of frames accepted before the crash point, fresh authentic downlinks, a port-0 uplink): uplink bytes, responses, remembered counters and session documents must stay equal. (B) structurally mutated documents (every field dropped / renamed / null / wrong type / out-of-range number, array length +-1, pending_len 0..255, counters at type limits, duplicate field, truncation at every byte, random byte edits): Err, or a session on which a 7-transaction history stays panic- and hang-free. Non-trivial: snapshot with fcnt_down = Some or pending answers or an owed ACK; mutated documents that are accepted; distinct by hash".into();
     ctx.level = "fault_enumeration".into();
     ctx.assumptions = vec![
         "negotiated MAC parameters and the channel plan are not part of the Session type; after a restore they restart from the regional defaults, so RX/TX radio configurations are not compared, only frames, responses and session documents".into(),
@@ -286,6 +338,12 @@ pub fn run(ctx: &mut Ctx) {
                         }
                     }
                 }
+            }
+            // nb front-end: snapshots taken between the events of each transaction
+            let n = check_midflight(h)?;
+            if n > 0 {
+                st.evaluations += n as u64;
+                st.class_n("midflight-snapshot", n as u64);
             }
             Ok(())
         });
